@@ -104,6 +104,7 @@ EnvPoints ==
                \ {[EnvBase EXCEPT !.wd = w, !.prog = "./c", !.cwd = "/x"] : w \in {"", "/d"}})   \* (the simulated file system knows ".../\./c" under any directory, for the synthetic deep ones)
          \cup {[EnvBase EXCEPT !.wd = "/d", !.prog = p, !.cwdlen = l] : p \in {"./c", "/bin/c"}, l \in CwdLens}
          \cup {[EnvBase EXCEPT !.mask = ms, !.disp = d, !.wd = w] : ms \in Masks, d \in Disps, w \in {"", "/d"}}
+         \cup {[EnvBase EXCEPT !.disp = d, !.cwd = c, !.prog = "sub/c"] : d \in {<<<<17, 1>>>>, <<<<13, 2>>, <<17, 1>>>>}, c \in {"/w", "/x"}}   \* SIGCHLD ignored; the start succeeds / the program is missing
          \cup {[EnvBase EXCEPT !.limit = -1, !.mask = ms] : ms \in {<<>>, <<15>>}}   \* no descriptor limit: start must refuse cleanly
          \* a working directory that cannot be entered (missing; not a directory): the start fails with the system's error,
          \* whatever the program, and nothing runs anywhere else instead
@@ -165,7 +166,11 @@ EMFILE == -24
 \* what is launched does not depend on which of the caller's standard descriptors are open: the points with a working directory
 \* for the child are also taken by a caller without stdin, and without stdin and stdout
 StdFor(pt) == IF Family = "env" /\ "x" \in DOMAIN pt /\ pt.x.wd = "/d" /\ pt.x.cwdlen = 0 /\ pt.x.mask = <<>> /\ pt.x.disp = <<>> /\ pt.x.cwd = "/w"
-                THEN StdSets \cup {<<FALSE, TRUE, TRUE>>, <<FALSE, FALSE, TRUE>>} ELSE StdSets
+                THEN StdSets \cup {<<FALSE, TRUE, TRUE>>, <<FALSE, FALSE, TRUE>>}
+              \* ... and the fault sweep's scenarios that open files of their own also run in a caller without stdin (what the library
+              \* opens then lands on descriptor 0 and is moved up: one more step that can fail)
+              ELSE IF Family = "faultscen" /\ (\E q \in 1..3 : pt.rd[q].t \in {T_DISCARD, T_PATH}) THEN StdSets \cup {<<FALSE, TRUE, TRUE>>}
+              ELSE StdSets
 Init == phase = "pick" /\ o \in Points /\ k \in {[std |-> s, hasInput |-> FALSE] : s \in StdFor(o)}
 \* a user handle / FILE that names one of the parent's descriptors 1, 2 while that descriptor is closed: an unusable target
 DeadTarget(eff) == \E s \in 1..3 : (eff[s].t = T_HANDLE /\ eff[s].h \in {1, 2} /\ ~k.std[eff[s].h + 1])
@@ -221,7 +226,10 @@ Expected ==
             common @@ [r |-> IF X.wd = "/nowhere" THEN ENOENT ELSE -20, nfd |-> BaseFds, left |-> 0, pmask |-> X.mask, pdisp |-> X.disp, pcwd |-> X.cwd]
        [] Family = "env" /\ X.cwd = "/x" /\ IsRel(X.prog) ->
             \* the program named relative to the PARENT's directory does not exist (although one of that name exists elsewhere)
-            common @@ [r |-> ENOENT, nfd |-> BaseFds, left |-> 0, pmask |-> X.mask, pdisp |-> X.disp, pcwd |-> X.cwd]
+            \* (a caller that ignores SIGCHLD has no zombies to collect: the operating system's answer to the library's wait - "no child" -
+            \* is what such a caller is told; its dispositions are what they were, on this path too)
+            common @@ [r |-> IF \E i \in 1..Len(X.disp) : X.disp[i] = <<17, 1>> THEN -10 ELSE ENOENT,
+                       nfd |-> BaseFds, left |-> 0, pmask |-> X.mask, pdisp |-> X.disp, pcwd |-> X.cwd]
        [] Family \in {"env", "env2"} ->
             common @@ [r |-> 1, left |-> 0, cexec |-> 1, cargv |-> <<X.prog>> \o X.argvx, cenv |-> ExpEnv,
                        pmask |-> X.mask, pdisp |-> X.disp, penv |-> X.penv, cmask |-> <<>>, cdisp |-> <<>>]
